@@ -39,10 +39,11 @@ func (b *Buffer) Put(key, value []byte) {
 	b.mu.Lock()
 	defer b.mu.Unlock()
 
-	// Store in the operations map - skiplist handles defensive copying
+	// The buffer outlives the call: capture key and value now so that the
+	// caller may reuse its slices without changing what gets committed
 	b.operations[string(key)] = &Operation{
-		Key:      key,
-		Value:    value,
+		Key:      cloneBytes(key),
+		Value:    cloneBytes(value),
 		IsDelete: false,
 	}
 }
@@ -52,12 +53,23 @@ func (b *Buffer) Delete(key []byte) {
 	b.mu.Lock()
 	defer b.mu.Unlock()
 
-	// Store in the operations map - skiplist handles defensive copying
+	// Capture the key now, the caller may reuse its slice after the call
 	b.operations[string(key)] = &Operation{
-		Key:      key,
+		Key:      cloneBytes(key),
 		Value:    nil,
 		IsDelete: true,
 	}
+}
+
+// cloneBytes returns a private copy of b, preserving nil-ness (a nil value
+// and an empty value are distinguishable to readers of the buffer)
+func cloneBytes(b []byte) []byte {
+	if b == nil {
+		return nil
+	}
+	c := make([]byte, len(b))
+	copy(c, b)
+	return c
 }
 
 // Get retrieves a value from the transaction buffer
@@ -75,8 +87,8 @@ func (b *Buffer) Get(key []byte) ([]byte, bool) {
 		return nil, true // Key exists but is marked for deletion
 	}
 
-	// Return the value directly - skiplist handles defensive copying
-	return op.Value, true
+	// Return a copy so the caller cannot modify the pending write
+	return cloneBytes(op.Value), true
 }
 
 // Operations returns a sorted list of all operations in the transaction
